@@ -22,19 +22,63 @@ pub fn strings(rest: &str) -> String {
 	format!("ok [{}] fused={}", out.join(","), again as u8)
 }
 
+/// strings_hist <min_length> <min_length_nul> <strict 0|1> <base> <hex> <history>
+/// history = comma list of next | nth:K | count | hint | clone   (as relocs_hist)
+pub fn strings_hist(rest: &str) -> String {
+	let a: Vec<&str> = rest.split(' ').collect();
+	if a.len() != 6 { return "bad-op".to_string(); }
+	let cfg = Config { min_length: num(a[0]) as u8, min_length_nul: num(a[1]) as u8, strict_nul: a[2] == "1", ..Config::default() };
+	let base = num(a[3]) as u32;
+	let data = unhex(a[4]);
+	let g = Guarded::new(&data, 0, true);
+	let fmt = |f: &pelite::strings::Found| format!("{}:{}:{}", g.rf(f.string.as_ptr(), f.string.len()), f.address, f.has_nul as u8);
+	let item = |o: Option<pelite::strings::Found>| o.map(|f| fmt(&f)).unwrap_or_else(|| "None".to_string());
+	let mut it = cfg.enumerate(base, g.bytes());
+	let mut res = Vec::new();
+	for h in a[5].split(',') {
+		match h {
+			"next" => res.push(item(it.next())),
+			"count" => res.push(it.clone().count().to_string()),
+			"hint" => { let (lo, hi) = it.size_hint(); res.push(format!("{}..{}", lo, hi.map_or("None".to_string(), |h| h.to_string()))); },
+			"clone" => { it = it.clone(); res.push(format!("[{}]", it.clone().map(|f| fmt(&f)).collect::<Vec<_>>().join(","))); },
+			_ if h.starts_with("nth:") => res.push(item(it.nth(num(&h[4..]) as usize))),
+			_ => {},
+		}
+	}
+	let mut n = 0usize;
+	while it.next().is_some() { n += 1; if n > data.len() + 2 { return "diverge".to_string(); } }
+	let fused = it.next().is_none() && it.next().is_none();
+	format!("ok {} fused={}", res.join(";"), fused as u8)
+}
+
 /// relocs_raw <hex>   (buffer placed 4-aligned)
 pub fn relocs_raw(rest: &str) -> String {
-	let data = unhex(rest.trim());
-	let g = Guarded::new(&data, 4, true);
+	relocs_at(4, rest.trim())
+}
+
+/// relocs_rawat <align16> <hex>   (buffer placed at an address that is align16 mod 16)
+pub fn relocs_rawat(rest: &str) -> String {
+	let a: Vec<&str> = rest.trim().split(' ').collect();
+	if a.len() != 2 { return "bad-op".to_string(); }
+	relocs_at(num(a[0]) as usize % 16, a[1])
+}
+
+fn fmt_block(g: &Guarded, b: &pelite::base_relocs::Block) -> String {
+	let im = b.image();
+	let w = b.words();
+	format!("{}@{}+{}/{}", im.VirtualAddress, g.rf(im as *const _ as *const u8, 8), im.SizeOfBlock, g.rf(w.as_ptr() as *const u8, w.len() * 2))
+}
+
+fn relocs_at(align16: usize, hx: &str) -> String {
+	let data = unhex(hx);
+	let g = Guarded::new(&data, align16, true);
 	let r = match pelite::base_relocs::BaseRelocs::parse(g.bytes()) { Ok(r) => r, Err(e) => return format!("err {}", errname(e)) };
 	let mut blocks = Vec::new();
 	let mut flat_it = Vec::new();
 	let mut n = 0usize;
 	for b in r.iter_blocks() {
-		let im = b.image();
-		let w = b.words();
-		blocks.push(format!("{}@{}+{}/{}", im.VirtualAddress, g.rf(im as *const _ as *const u8, 8), im.SizeOfBlock, g.rf(w.as_ptr() as *const u8, w.len() * 2)));
-		for word in w {
+		blocks.push(fmt_block(&g, &b));
+		for word in b.words() {
 			let ty = b.type_of(word);
 			if ty != 0 { flat_it.push((b.rva_of(word), ty)); }
 		}
@@ -47,6 +91,34 @@ pub fn relocs_raw(rest: &str) -> String {
 	let expect = flat_fold.iter().fold(0u64, |acc, &(rva, ty)| acc.wrapping_mul(31).wrapping_add(rva as u64 * 16 + ty as u64));
 	let f = |v: &Vec<(u32, u8)>| v.iter().map(|(a, b)| format!("{}:{}", a, b)).collect::<Vec<_>>().join(",");
 	format!("ok blocks=[{}] flat=[{}] foreach_same={} fold_same={}", blocks.join(","), f(&flat_it), (flat_it == flat_fold) as u8, (folded == expect) as u8)
+}
+
+/// relocs_hist <hex> <history>   history = comma list of next | nth:K | count | hint | clone
+/// (`count` = `it.clone().count()`, `clone` = continue on a clone and list what it still yields)
+pub fn relocs_hist(rest: &str) -> String {
+	let a: Vec<&str> = rest.trim().split(' ').collect();
+	if a.len() != 2 { return "bad-op".to_string(); }
+	let data = unhex(a[0]);
+	let g = Guarded::new(&data, 4, true);
+	let r = match pelite::base_relocs::BaseRelocs::parse(g.bytes()) { Ok(r) => r, Err(e) => return format!("err {}", errname(e)) };
+	let mut it = r.iter_blocks();
+	let mut res = Vec::new();
+	let item = |o: Option<pelite::base_relocs::Block>| o.map(|b| fmt_block(&g, &b)).unwrap_or_else(|| "None".to_string());
+	for h in a[1].split(',') {
+		match h {
+			"next" => res.push(item(it.next())),
+			"count" => res.push(it.clone().count().to_string()),
+			"hint" => { let (lo, hi) = it.size_hint(); res.push(format!("{}..{}", lo, hi.map_or("None".to_string(), |h| h.to_string()))); },
+			"clone" => { it = it.clone(); res.push(format!("[{}]", it.clone().map(|b| fmt_block(&g, &b)).collect::<Vec<_>>().join(","))); },
+			_ if h.starts_with("nth:") => res.push(item(it.nth(num(&h[4..]) as usize))),
+			_ => {},
+		}
+	}
+	// fused: drain, then keep asking
+	let mut n = 0usize;
+	while it.next().is_some() { n += 1; if n > data.len() + 2 { return "diverge".to_string(); } }
+	let fused = it.next().is_none() && it.next().is_none();
+	format!("ok {} fused={}", res.join(";"), fused as u8)
 }
 
 /// relocs_build <rva:ty,rva:ty,...>   ('-' for none)
@@ -87,7 +159,10 @@ pub fn dispatch(_st: &mut crate::State, fam: &str, rest: &str) -> Option<String>
 	Some(match fam {
 		"fmt_cstr" => fmt_cstr(rest),
 		"strings" => strings(rest),
+		"strings_hist" => strings_hist(rest),
 		"relocs_raw" => relocs_raw(rest),
+		"relocs_rawat" => relocs_rawat(rest),
+		"relocs_hist" => relocs_hist(rest),
 		"relocs_build" => relocs_build(rest),
 		_ => return None,
 	})
